@@ -179,6 +179,8 @@ qb_log_dcs_init(void)
 
 	lookup_arr = qb_array_create_2(16, sizeof(struct callsite_list), 1);
 	callsite_arr = qb_array_create_2(16, sizeof(struct qb_log_callsite), 1);
+	/* the arrays are new: start filling them from the beginning again */
+	callsite_arr_next = 0;
 
 	arr_next_lock = qb_thread_lock_create(QB_THREAD_LOCK_SHORT);
 
